@@ -57,12 +57,13 @@ TEXT = {
                 ref="DESIGN.md §4 C20", note=_NOTE + " Forms with their own closure/iterator code path are outside the dialect.", technique=_T),
     "C06": dict(level="Bounded (labelled as such): native bounded-exhaustive driver against the real crate — 16 (quick) / 349 (thorough) frequency profiles incl. single-symbol, Fibonacci-skewed (codes to 20 bits) "
                       "and 257/300/600 equiprobable u16 alphabets x item shapes covering every start/end bit offset x 1-2 merge generations; exact read-back after every push, contiguous bit ranges, "
-                      "item bits = sum of code lengths, total cost equals a reference Huffman construction, outsider symbols never read back as something else, raw mode before merge / after clear. No deductive proof: "
-                      "the container is built on BTreeMap/BinaryHeap, outside what Verus or Kani can execute here.",
+                      "item bits = sum of code lengths, total cost equals a reference Huffman construction, outsider symbols never read back as something else, raw mode before merge / after clear. Deductive part (Verus, unbounded): BitIterator::next only — chunk length, cursor advance, extracted bits equal bits [lo, lo+n) MSB-first, no shift/arith overflow. "
+                      "The rest of the container is built on BTreeMap/BinaryHeap, outside what Verus or Kani can execute here.",
                 ref="DESIGN.md §4 C06", note="Trusted: the driver's oracle (reference Huffman cost, pushed sequences) and rustc's debug/release builds. Bounds as stated; nothing beyond them is decided.",
                 technique="bounded-exhaustive native driver (stand-in; contract-based proof not applicable to BTreeMap-based code here)"),
     "C07": dict(level="Bounded (labelled as such): native bounded-exhaustive driver — 8x3 training sets over 1-2 source regions x 268 probe strings (all one-byte strings, dictionary entries, prefixes/extensions, "
-                      "strings whose first byte is an assigned tag, empty) x second merge generation x clear; >1024 distinct strings across the summary's compaction; every push is refused or read back exactly and heavy hitters cost one byte.",
+                      "strings whose first byte is an assigned tag, empty) x second merge generation x clear; >1024 distinct strings across the summary's compaction; every push is refused or read back exactly and heavy hitters cost one byte. "
+                      "Deductive part (Verus, unbounded): BytesMap::{get,len} and DictionaryCodec::decode (result is the tag's dictionary entry or the stored bytes).",
                 ref="DESIGN.md §4 C07", note="Trusted: the driver's oracle and rustc's debug/release builds. Bounds as stated.",
                 technique="bounded-exhaustive native driver (stand-in; contract-based proof not applicable to BTreeMap-based code here)"),
     "C09": dict(level="Bounded (labelled as such): twin harnesses over 12 region compositions and FlatStack (clone / clone_from into destinations pre-filled with 0..3 unrelated items, identical further push, then divergence), "
@@ -70,7 +71,8 @@ TEXT = {
                 ref="DESIGN.md §4 C09", note="Trusted: harness oracles; Clone of std types. Clone on type parameters has no usable Verus spec, so no deductive part.",
                 technique="bounded twin harnesses (native exhaustive enumeration) + program-text scans"),
     "C14": dict(level="Bounded (labelled as such): IntoOwned laws (into_owned == pushed, borrow_as round trip, clone_onto onto 5 prior targets, reborrow, region-to-region push) on read items of slice, columns, option, result, "
-                      "nested slice regions and Huffman Wrapped items, region-backed and owned-borrowed.",
+                      "nested slice regions and Huffman Wrapped items, region-backed and owned-borrowed. "
+                      "Deductive part (Verus, unbounded, generic in the parts): IntoOwned for Option<T> and Result<T,E> — into_owned, clone_onto (whatever the target held before, incl. the other variant), borrow_as.",
                 ref="DESIGN.md §4 C14", note="Trusted: harness oracles. The IntoOwned bodies are iterator adapters / std calls outside the Verus dialect.",
                 technique="bounded harnesses (native exhaustive enumeration)"),
     "C15": dict(level="Bounded (labelled as such), value-complete for the stated sizes natively over a 3-value byte domain: all triples of u8 vectors of length 0..2 in every representation (two regions, owned-borrowed): ==, partial_cmp, cmp "
